@@ -64,7 +64,47 @@ func c03check(t *tree.Tree, what string) {
 	sxAssert(wellFormed(t) == "", "well-formed after "+what)
 	sxAssert(enumerationsAgree(t) == "", "enumerations agree after "+what)
 	sxAssert(t.Rooted() == (t.Root().Nneigh() == 2), "Rooted() iff root of degree 2 after "+what)
-	sxAssert(t.Newick() == newickRef(t), "Newick text describes the structure after "+what)
+	text := t.Newick()
+	sxAssert(text == newickRef(t), "Newick text describes the structure after "+what)
+	// ... and the text reads back as that structure: same shape, child order, names, values
+	// (a root with a single child cannot be written by gotree's writer, which
+	// drops it: such trees, only produced by SubTree at a single-child node, are
+	// outside this clause)
+	if sxParam("parseback", 1) == 1 && t.Root().Nneigh() >= 2 {
+		back, err := parseNewick(text)
+		sxAssert(err == nil, "Newick text parses after "+what)
+		if err == nil {
+			sxAssert(c03sameShape(t.Root(), nil, back.Root(), nil), "Newick text reads back as the same shape and names after "+what)
+		}
+	}
+}
+
+// c03sameShape: same child order, same names (tips and inner nodes) — the
+// numbers are C01's subject.
+func c03sameShape(a, pa, b, pb *tree.Node) bool {
+	if a.Name() != b.Name() {
+		return false
+	}
+	var ka, kb []*tree.Node
+	for _, c := range a.Neigh() {
+		if c != pa {
+			ka = append(ka, c)
+		}
+	}
+	for _, c := range b.Neigh() {
+		if c != pb {
+			kb = append(kb, c)
+		}
+	}
+	if len(ka) != len(kb) {
+		return false
+	}
+	for i := range ka {
+		if !c03sameShape(ka[i], a, kb[i], b) {
+			return false
+		}
+	}
+	return true
 }
 
 func subsetNames(n int, tag string, allowAbsent bool) (uint64, []string) {
